@@ -122,6 +122,13 @@ CHECKS = {
          'throws codes carrying the table weight; masters weights non-increasing through V120.',
     note='Exhaustive for the finite core; arbitrary labels are sampled.',
     ref='DESIGN.md §4 C17'),
+ 'C18': dict(
+    technique='cross-language differential testing over generated input grids through a persistent node bridge (same value or both refuse) + structural comparison of the duplicated tables',
+    text='The C06/C11 grids (digit strings x precision, boundary and residue durations, structured and junk h:m:s texts, every Tyrving and QuadKids table x centi-marks '
+         'in all carriers incl. hand-timed and comma forms, table keys and their spelling variants) are evaluated by the Python functions and by the JS functions '
+         'loaded directly from js/src under node; results must be equal or both must refuse; the JS tables are dumped and compared with the Python dicts.',
+    note='Only the function pairs named in the property. The JS sources are loaded with one regex rewrite of their import syntax (no Babel offline). JS NaN/undefined is a value.',
+    ref='DESIGN.md §4 C18'),
  'C19': dict(
     technique='history testing (all short call sequences + Hypothesis rule-based state machine overflowing the caches) against a reference table computed in real fresh interpreter processes',
     text='Every call of the universe (schema_valid x validators x expect_failure over all schema files; valid_against_schema over all samples x schemas x '
@@ -139,10 +146,6 @@ CHECKS = {
 }
 
 PENDING = {}
-for i in range(1, 20):
-    pid = 'C%02d' % i
-    if pid not in CHECKS:
-        PENDING[pid] = 'check not built yet in this revision of /verif (design in DESIGN.md §4); nothing is claimed for it'
 
 checks = []
 na = []
